@@ -1,4 +1,5 @@
 import PgBifrost.Proofs.BatcherFaithful
+import PgBifrost.Gen.TxnsSrc
 import PgBifrost.Proofs.BatcherAccounting
 import PgBifrost.Proofs.BatcherSeenOrder
 import PgBifrost.Proofs.SysExample
@@ -406,5 +407,23 @@ example : ((Sys.run Sys.ex1Cfg Sys.ex1Acts).sinkAccepted.map (·.id)).Perm [1, 2
     (by decide) (by decide) (by decide)).1
 
 end front
+
+/-- `progress.UpdateTransactions`, translated from the source on this run, is the model's `updateTxns`: a batch's
+transactions map is keyed by the DELIVERY key (`TimeBasedKey`), a message of a delivery not yet in the map appends an
+entry with the message's transaction id and count 1 (stored under its own key), any other increments that entry. -/
+theorem update_transactions_as_in_source (txns : List PgBifrost.Batch.TxnCount) (m : PgBifrost.Batch.Msg) :
+    PgBifrost.Gen.TxnsSrc.updateTransactions txns m = PgBifrost.Batch.updateTxns txns m ∧
+    PgBifrost.Gen.TxnsSrc.entryKeyIsMapKey = true := by
+  refine ⟨?_, by decide⟩
+  unfold PgBifrost.Gen.TxnsSrc.updateTransactions PgBifrost.Batch.updateTxns
+  cases h : txns.find? (·.key == m.key) with
+  | none =>
+    have : txns.any (·.key == m.key) = false := by
+      rw [List.any_eq_false]; intro x hx; have := List.find?_eq_none.mp h x hx; simpa using this
+    simp [this]
+  | some e =>
+    have : txns.any (·.key == m.key) = true := by
+      rw [List.any_eq_true]; exact ⟨e, List.mem_of_find?_eq_some h, by simpa using List.find?_some h⟩
+    simp [this]
 
 end PgBifrost.Props.C04
